@@ -42,11 +42,21 @@ class StartStagePlannerMixin:
             branch_outputs = [u.outputs for u in upstreams if u is not None and u.outputs]
             ancestor_outputs.update(apply_output_reducers(reducers, branch_outputs))
 
+        # Keys this stage inherited from its ancestors at an earlier planning
+        # (a re-armed stage inside a jump loop is planned once per iteration).
+        # They are not the stage's own values: the ancestors' current outputs
+        # are authoritative, otherwise the previous iteration's values would
+        # shadow the current ones (and dropped keys would linger).
+        inherited = set(stage.context.get("_inherited_keys") or ())
+        inherited_now = [k for k in ancestor_outputs if k in inherited or k not in stage.context]
+
         merged = ancestor_outputs
         for key, value in stage.context.items():
             if key in reducers:
                 # A reducer produced the authoritative value for this key;
                 # do not let the join stage's own context override it.
+                continue
+            if key in inherited or key == "_inherited_keys":
                 continue
             if key in merged and isinstance(merged[key], list) and isinstance(value, list):
                 # Concatenate lists, avoiding duplicates
@@ -57,6 +67,8 @@ class StartStagePlannerMixin:
             else:
                 merged[key] = value
 
+        if inherited_now:
+            merged["_inherited_keys"] = sorted(inherited_now)
         stage.context = merged
 
         # Get builder
